@@ -100,13 +100,13 @@ CLAIMS = {
          "(universes <= 6/7), model SCCs = library SCCs as sets.",
          "Trusted: Coq kernel + vm_compute; model; harness; CBC (through PuLP), igraph and the auxiliary heuristics are outside the model and only judged per run.",
          "DESIGN.md section 4, C06"),
- "C07": ("Coq strict exchange + transitivity theorem; merge-loop model and consistent_with model by correspondence; optima enumerated by the verified oracle",
-         "PARTIAL proof. Machine-checked for all tables: for an ordered partition (non-empty groups, no back arcs) whose consecutive groups "
-         "are linked by robust arcs only, EVERY optimal consensus ranks earlier groups strictly before later groups; verified checker for the "
-         "partition the library returns; is_optimal <-> score = opt. By correspondence / per-run judgement: the merge loop (run in the "
-         "model on the library's own SCC order) returns the same partition, which coarsens the ParCons partition and passes the checker; all "
-         "optimal position functions enumerated in Coq respect it (<= 5/6 elements); consistent_with agrees with its model on ALL (partition, "
-         "ranking) pairs over 3/4 elements and equals the 'respects' relation on well-formed pairs.",
+ "C07": ("Coq theorem on the model of the ParFront merge loop (strict exchange + transitivity); consistent_with by exhaustive correspondence",
+         "Machine-checked end to end on the model: from ANY partition of the universe without back arcs, the merge loop terminates, "
+         "concatenates consecutive groups without reordering, ends with all consecutive groups robustly linked, and EVERY optimal consensus "
+         "ranks each group strictly before the later ones; is_optimal <-> score = opt. Outside the model (judged per run with the verified "
+         "boolean tests): igraph's SCC order. Per run: merge-loop model = library on the library's SCC order; all optimal position functions "
+         "enumerated in Coq respect the returned partition (<= 5/6 elements). PARTIAL for the last clause of the property: consistent_with = "
+         "'respects' is decided by correspondence on ALL (partition, ranking) pairs over 3/4 elements, not by a theorem.",
          "Trusted: Coq kernel + vm_compute; model; harness; igraph's SCC order taken as given.",
          "DESIGN.md section 4, C07"),
  "C05": ("Coq-verified brute-force optimum + exchange lemma; every exact run judged in Coq against it",
